@@ -555,7 +555,7 @@ theorem inv_delete_aux (hI : NodeInv I) (hlen : ∀ x, (H x).length = 32) :
             | short ck chh cc cd ctc =>
               obtain ⟨x1, x2, x3⟩ := hI.short_dest _ _ _ _ _ IH'
               exact hI.short_mk _ _ _ _ x1 x2 x3
-            | nil => exact hI.short_mk _ _ _ _ hn1 hn2 IH'
+            | nil => exact hI.nil
             | empty => exact hI.short_mk _ _ _ _ hn1 hn2 IH'
             | hashRef _ _ => exact hI.short_mk _ _ _ _ hn1 hn2 IH'
             | value _ _ _ _ => exact hI.short_mk _ _ _ _ hn1 hn2 IH'
@@ -598,8 +598,8 @@ theorem inv_delete_aux (hI : NodeInv I) (hlen : ∀ x, (H x).length = 32) :
                 · intro _; exact hI.short_mk _ _ _ _ (soleChild_some hsole) (hch' pos).1 (hch' pos).2
 
 /-- A (delete): under the hypotheses of `RepOps.rep_delete`, a successful `delete` keeps an invariant such as `Proper`
-    (in the not-found case the node is unchanged, `RepOps.rep_delete`). The hypotheses about the spec tree are needed:
-    `delete` on `short k (value …)` with a key longer than `k` returns the short node with a nil child. -/
+    (in the not-found case the node is unchanged, `RepOps.rep_delete`). The hypotheses about the spec tree tie the node to a
+    well-formed trie (before fixes acaed54 / 9bafaec `delete` could leave a short node with a nil child on other shapes). -/
 theorem inv_delete (hI : NodeInv I) (hlen : ∀ x, (H x).length = 32) {n : WN} {t : PT} {m fuel : Nat} {key : List Nib}
     (hrep : RepS H s n t) (hne : NoEmp n) (hu : Uniform m t) (hok : PTOK t) (hk : key.length = m)
     (hf : 2 * m + 2 ≤ fuel) (hn : I n) (he : (delete H true s fuel n key).err = none) :
